@@ -31,7 +31,8 @@ MANIFEST = {
             "fault-free run installs the new document. The theorems are about the step sequence serialise -> open temp -> write -> "
             "close -> os.replace, which the tie extracts from the running code and compares with the model's on every run; for the "
             "pinned sequence (open target for writing first, streaming json.dump) the negation is proved on the mixed-sign-duration "
-            "witness.",
+            "witness."
+            " The bulk entry point store.update(iterable) (inherited `for x in other: self.add(x)`) is modelled as addMany and proved to be the history of its adds stopped at the first failure, whose exception is the result - never swallowed - and which leaves no trace (c15_bulk_insertion_reports_first_failure, c15_bulk_insertion_ok_means_all_added); tied by bulk insertions of 2-3 objects in the C14 histories.",
     "note": "partial: os.replace atomicity and 'a crash loses only an unflushed suffix of the file being written' are file-system "
             "assumptions; faults inside the exception handlers themselves (os.remove of the temporary file) are not injected. The "
             "model follows the tree with fixes/C15-atomic-write.patch applied.",
